@@ -67,6 +67,16 @@ scope_configs = C.scope_configs
 def fixed_cases(tier):
     # the all-features configuration on every repr, gapless and with holes (cheap, deterministic)
     out = [{"small_scope": 3 if tier == "thorough" else 2}]
+    # regressions of repaired defects D6 (0edb128: variants named Error / Err) and D3 (98adeee: struct_name)
+    names = ["Error", "Err", "Ok", "Some", "None", "Item", "Output"]
+    for r, vals in (("u8", [0, 1, 2, 3, 4, 5, 6]), ("i16", [-3, -2, 5, 6, 7, 100, 101])):
+        spec = {"repr": r, "vis": "pub", "ident": "E", "enum_attrs": [],
+                "variants": [{"ident": nm, "disc": str(v)} for nm, v in zip(names, vals)]}
+        cfg = S.simple_config(E.ALL_FEATURES)
+        for f in cfg["feats"]:
+            if f["f"] in ("iter", "names"):
+                f["params"].append(["struct_name", "My%sStruct" % f["f"].capitalize()])
+        out.append({"spec": spec, "cfg": cfg, "sorted": None, "match_excluded": True, "seed": 8})
     for r in M.REPRS:
         lo, hi = M.repr_domain(r)
         for shape in ("gapless", "holes"):
